@@ -165,6 +165,41 @@ theorem C16enc_pixels_from_header (sfx : List Char) (fmt : Model.Figure.Fmt) (by
     (pictOf fmt bytes w h).picw = t.1 ∧ (pictOf fmt bytes w h).pich = t.2 :=
   pictOf_pixels_some fmt bytes w h t (Proofs.Figure.imageDims_of_header sfx fmt bytes t hf hs)
 
+/-- the encoder's picture, both cases at once: the pair written is the pair READ from the header — whatever its values,
+`0` included — or, ONLY when the parser returns nothing, the 96-dpi estimate `int(inches * 96)` -/
+theorem C16enc_pixels_read_or_fallback (fmt : Model.Figure.Fmt) (bytes : List Nat) (w h : Rat) :
+    (∃ t, imageDims fmt bytes = some t ∧ (pictOf fmt bytes w h).picw = t.1 ∧ (pictOf fmt bytes w h).pich = t.2) ∨
+    (imageDims fmt bytes = none ∧ (pictOf fmt bytes w h).picw = truncFMul w 96 ∧
+      (pictOf fmt bytes w h).pich = truncFMul h 96) := by
+  cases ht : imageDims fmt bytes with
+  | none => exact Or.inr ⟨rfl, pictOf_pixels_none fmt bytes w h ht⟩
+  | some t => exact Or.inl ⟨t, rfl, pictOf_pixels_some fmt bytes w h t ht⟩
+
+/-- **the fallback is used only when the parser returns nothing**: if either number written differs from the number
+read on that axis, nothing was read at all -/
+theorem C16enc_fallback_only_when_unreadable (fmt : Model.Figure.Fmt) (bytes : List Nat) (w h : Rat)
+    (hne : ∀ t, imageDims fmt bytes = some t → (pictOf fmt bytes w h).picw ≠ t.1 ∨ (pictOf fmt bytes w h).pich ≠ t.2) :
+    imageDims fmt bytes = none := by
+  cases ht : imageDims fmt bytes with
+  | none => rfl
+  | some t =>
+    have := pictOf_pixels_some fmt bytes w h t ht
+    rcases hne t ht with h1 | h2
+    · exact absurd this.1 h1
+    · exact absurd this.2 h2
+
+/-- a header that states a zero dimension (JPEG frame header with `Y = 0` and the line count in a DNL segment; a PNG
+IHDR with a zero field): the zero is written, next to the other axis' stated value -/
+theorem C16enc_zero_height_stated (sfx : List Char) (fmt : Model.Figure.Fmt) (bytes : List Nat) (tw : Nat)
+    (w h : Rat) (hf : fmtOfSuffix sfx = some fmt) (hs : HeaderStates sfx bytes (tw, 0)) :
+    (pictOf fmt bytes w h).picw = tw ∧ (pictOf fmt bytes w h).pich = 0 :=
+  C16enc_pixels_from_header sfx fmt bytes (tw, 0) w h hf hs
+
+theorem C16enc_zero_width_stated (sfx : List Char) (fmt : Model.Figure.Fmt) (bytes : List Nat) (th : Nat)
+    (w h : Rat) (hf : fmtOfSuffix sfx = some fmt) (hs : HeaderStates sfx bytes (0, th)) :
+    (pictOf fmt bytes w h).picw = 0 ∧ (pictOf fmt bytes w h).pich = th :=
+  C16enc_pixels_from_header sfx fmt bytes (0, th) w h hf hs
+
 /-! ## the display size: IEEE doubles vs. the exact floor -/
 
 /-- what the model computes: the exact product rounded to the nearest double (ties to even), then truncated -/
